@@ -7,7 +7,7 @@ ids="${*:-C03 C04 C06 C08 C10 C11 C16}"
 cd /verif
 if ! git -C /repo diff --quiet; then echo "refusing: /repo has uncommitted changes"; exit 2; fi
 keep="$(mktemp -d /dev/shm/fmlsim-evidence.XXXXXX)"; cp -a /verif/evidence/. "$keep"/
-restore() { git -C /repo checkout -- . ; cp -a "$keep"/. /verif/evidence/ ; rm -rf "$keep" ; }
+restore() { git -C /repo checkout -- . ; mkdir -p /verif/build; touch /verif/build/.stale ; cp -a "$keep"/. /verif/evidence/ ; rm -rf "$keep" ; }
 trap restore EXIT
 git -C /repo apply "$patch" || { echo "patch does not apply"; exit 2; }
 bad=0
